@@ -176,7 +176,7 @@ def narrow(fn, a, b, budget=None):
         elif fn == "mpr_penetration":
             i, depth, pdir, pos = mpr.mpr_penetration(a, b)
             r = {"b": bool(i), "depth": None if depth is None else float(depth), "dir": _vec(pdir), "pos": _vec(pos)}
-        elif fn == "epa":
+        elif fn in ("epa", "epa_big"):
             d, p, q, simplex = gjk.gjk_distance_jolt(a, b)
             r = {"d": float(d)}
             if d == 0.0 and simplex is not None:
@@ -184,7 +184,10 @@ def narrow(fn, a, b, budget=None):
                 partial = bool(np.any(np.all(np.asarray(simplex) == 0.0, axis=1)))
                 r["partial_simplex"] = partial
                 try:
-                    mtv, faces, success = epa.epa(simplex, a, b)
+                    if fn == "epa_big":  # the optional capacity arguments raised (smooth shapes need more faces)
+                        mtv, faces, success = epa.epa(simplex, a, b, max_iter=200, max_faces=512)
+                    else:
+                        mtv, faces, success = epa.epa(simplex, a, b)
                 except Exception as ex:
                     ex.dsim_ctx = {"partial_simplex": partial}
                     raise
